@@ -341,6 +341,26 @@ pub fn gen(tier: &str, r: &mut Rng) -> Vec<String> {
             }
         }
     }
+    // bare serial-number terms on conformers whose serial numbers do not go up (a search that narrows the atoms down by
+    // serial number must not take them for sorted)
+    for k in 0..budget(tier, 40, 400) {
+        let o6 = GenOpts { max_atoms: 6, ..o };
+        let mut s = gen_pdb(r, &o6);
+        for m in s.models.iter_mut() { for c in m.chains.iter_mut() { for x in c.residues.iter_mut() { for f in x.confs.iter_mut() {
+            let mut ser: Vec<usize> = f.atoms.iter().map(|a| a.serial).collect();
+            if k % 2 == 0 { ser.reverse(); } else if ser.len() > 2 { ser.rotate_left(1); let n = ser.len(); ser.swap(0, n - 1); ser.swap(0, 1); }
+            for (a, v) in f.atoms.iter_mut().zip(ser) { a.serial = v; }
+        } } } }
+        let (_, back) = realise(&s);
+        let serials: Vec<usize> = back.models.iter().flat_map(|m| m.chains.iter()).flat_map(|c| c.residues.iter()).flat_map(|x| x.confs.iter()).flat_map(|f| f.atoms.iter()).map(|a| a.serial).collect();
+        if serials.is_empty() { continue; }
+        for _ in 0..4 {
+            let v = *r.pick(&serials);
+            let e = if r.chance(1, 2) { Ex::T(Tm::As(v)) } else { Ex::T(Tm::Asr(v.saturating_sub(r.below(3)), v + r.below(3))) };
+            let level = LEVELS[r.below(LEVELS.len())];
+            if let Some(p) = pick_path(r, &back) { out.push(case_line(level, p, &e, &back)); } else { out.push(case_line("pdb", [0, 0, 0, 0], &e, &back)); }
+        }
+    }
     // random trees to depth 8
     let n_rand = budget(tier, 1500, 60000);
     for k in 0..n_rand {
